@@ -13,6 +13,7 @@ PROPS = {
             {"name": "graph", "quick": 4000, "thorough": 200000, "per_shard": 1500},
             {"name": "parsers", "quick": 8000, "thorough": 400000, "per_shard": 20000},
             {"name": "output", "quick": 1200, "thorough": 60000, "per_shard": 200},
+            {"name": "paths", "quick": 2000, "thorough": 100000, "per_shard": 500},
         ],
         "rule": "counts: op x boundary-structured operand pairs (0,1,cap-1,cap,2^31,2^32±k,2^53,2^63, complements to the cap, equal operands, random); "
                 "distinct = distinct (op,a,b); every case is non-trivial (each exercises one arithmetic function on a fresh pair).",
@@ -194,7 +195,7 @@ NOT_APPLICABLE = {p: "check under construction in this commit; see DESIGN.md §8
 # fails as soon as the file says anything else, which re-opens the question for these properties.
 _SRC_PINS = {
     "C01": ["ObjIter", "BatchObjIter", "ExplicitRoot"],
-    "C05": ["Output", "Human"],
+    "C05": ["Output", "Human", "PathResolver"],
     "C06": ["RefGroupBuilder", "FilterValue", "FilterGroupValue", "Grouper", "ShowRefGrouper"],
     "C07": ["RefGroupBuilder", "Grouper"],
     "C08": ["PathResolver", "Output"],
@@ -208,7 +209,7 @@ _SRC_PINS = {
     "C17": ["ObjIter", "BatchObjIter", "RefIter"],
     # (C17 also lists Props.Pins.Meter below: the meter's lock discipline)
     "C18": ["MainFile"],
-    "C19": ["Output", "Oid"],
+    "C19": ["Output", "Oid", "PathResolver"],
 }
 # the files that are also translated or have a more specific statement list (whole-file pins)
 for _p, _ms in {
